@@ -155,6 +155,24 @@ pub fn run(ctx: &mut Ctx) {
             let got = std::fs::read("sub/dir/out").unwrap_or_default();
             format!("code={} content={}", o.status.code().unwrap_or(-1), hex(&got))
         });
+        // the response file is rewritten with exactly the new content when it shrinks, grows or stays
+        for (name, first, second) in [("shrink", "-a  $in \"quoted\" some more words here", "-b $in"), ("grow", "x", "-a $in and now much longer than before"), ("same", "-a $in", "-a $in"), ("empty", "-a $in something", "")] {
+            ctx.count("rspfile_rewrites");
+            ctx.emit(&format!("n2bin rsprewrite {} {}", name, hex(second.replace("$in", "in1 in2").as_bytes())), || {
+                tp.reset();
+                std::fs::write("in1", "").unwrap(); std::fs::write("in2", "").unwrap();
+                let mut codes = vec![];
+                for (k, content) in [first, second].iter().enumerate() {
+                    std::fs::write("build.ninja", format!("rule r\n  command = cat $out.rsp > $out; echo {} >> log\n  rspfile = $out.rsp\n  rspfile_content = {}\nbuild out: r in1 in2\n", k, content)).unwrap();
+                    let o = Command::new(&bin).output();
+                    let Ok(o) = o else { return "spawn-failed".into() };
+                    codes.push(o.status.code().unwrap_or(-1));
+                }
+                let got = std::fs::read("out").unwrap_or_default();
+                let rsp = std::fs::read("out.rsp").unwrap_or_default();
+                format!("codes={:?} content={} rsp={}", codes, hex(&got), hex(&rsp)).replace(' ', "").replace("content=", " content=").replace("rsp=", " rsp=")
+            });
+        }
         for (name, cmd, want_code) in [("fail", "exit 3", 1), ("ok", "true", 0), ("sigterm", "kill -TERM $$", 1)] {
             ctx.emit(&format!("n2bin exit {}", name), || {
                 tp.reset();
